@@ -110,13 +110,13 @@ def _gen_wt(rng, m, n):
     elif r < 0.8:
         a = [ugly() for _ in range(m)]
         if m and rng.random() < 0.5: a[rng.randrange(m)] = classic()
-    elif r < 0.88:
+    elif r < 0.86:
         a = [grid() for _ in range(m)]
         for _ in range(rng.randint(1, max(1, m // 2))):
             if m: a[rng.randrange(m)] = 0.0
-    elif r < 0.94:
-        a = [grid() for _ in range(m)]
-        if m: a[rng.randrange(m)] = -rng.randint(1, 32) / 16.0               # ndarray weights are not sign-checked
+    elif r < 0.94:                                                           # ndarray weights are not sign-checked
+        a = [grid() * rng.choice([1, -1, -1]) for _ in range(m)]
+        if m: a[rng.randrange(m)] = -rng.randint(1, 32) / 16.0
     else: a = [grid() for _ in range(m + rng.choice([-1, 1]) if m else 1)]
     return {"a": a}
 
